@@ -8,7 +8,7 @@
   hypothesis is `Adm.fresh0` — an addition whose data has to be placed fresh has
   `header.start = 0`.  `C14_offset_window_counterexample` shows the hypothesis is needed.
 -/
-import Ctrmml.Proofs.Wave
+import Ctrmml.Proofs.WaveDecode
 namespace Ctrmml.Wave
 open Ctrmml Ctrmml.Alloc
 
@@ -141,11 +141,15 @@ theorem C14_bank_rule (b : Bank) (rs : List Win) (ws : List Bytes) (hr : Reach b
 /-- dedupe: when the duplicate detector finds the data, nothing is written: rom, used size
 and gaps are unchanged and the returned header points at the earlier sample's position. -/
 theorem C14_dedupe (b : Bank) (h : Sample) (data : Bytes) (d : Nat) (b' : Bank) (idx : Nat)
-    (hd : findDuplicate b h data = some d) (hb : b.bankSize ≠ 0) (hok : addSample b h data = .ok (b', idx)) :
+    (hd : findDuplicate b h data = some d) (hok : addSample b h data = .ok (b', idx)) :
     b'.rom = b.rom ∧ b'.currentSize = b.currentSize ∧ b'.gaps = b.gaps ∧
     ∃ s i, b'.samples[idx]? = some s ∧ b.samples[d]? = some i ∧ s.position = i.position := by
   unfold addSample at hok
-  simp only [hb, if_false, hd] at hok
+  split at hok
+  · cases hok
+  split at hok
+  · cases hok
+  simp only [hd] at hok
   unfold findDuplicate at hd
   obtain ⟨hlt, _, _⟩ := List.findIdx?_eq_some_iff_getElem.mp hd
   have hgd : b.samples.getD d h = b.samples[d] := by
@@ -206,33 +210,140 @@ theorem C14_header_roundtrip (s : Sample)
     bind, Option.bind, pure, Option.some.injEq, Sample.mk.injEq] at *
   refine ⟨?_, ?_, ?_, ?_, ?_, ?_, ?_, ?_⟩ <;> omega
 
-/-- the per-sample conversion of the reader + encoder is the 8-bit unsigned conversion of the
-spec: an 8-bit file byte `v` goes through `(v ^ 0x80) << 8` and comes back as `v`; a signed
-16-bit sample with raw bits `r` becomes `(r + 32768) mod 65536 / 256`. -/
-theorem C14_wav_sample_conversion_partial :
-    (∀ v, v < 256 → encodeSample [((v ^^^ 0x80) * 256) % 65536] = [to8 8 v]) ∧
-    (∀ r, r < 65536 → encodeSample [r] = [to8 16 r]) := by
-  have hx : ∀ x, x < 256 → x ^^^ 128 = (x + 128) % 256 := by
-    set_option maxRecDepth 8192 in decide
-  constructor
-  · intro v hv
-    have h1 := hx v hv
-    have h2 : (v + 128) % 256 < 256 := Nat.mod_lt _ (by omega)
-    have h3 := hx ((v + 128) % 256) h2
-    simp only [encodeSample, Tables.wave_encShift, Tables.wave_encXor, to8, List.map_cons, List.map_nil, if_true]
-    rw [h1]
-    have e28 : (2 : Nat) ^ 8 = 256 := by decide
-    rw [e28]
-    have : (v + 128) % 256 * 256 % 65536 / 256 = (v + 128) % 256 := by omega
-    rw [this, h3]
-    congr 2; omega
-  · intro r hr
-    have h1 := hx (r / 256) (by omega)
-    simp only [encodeSample, Tables.wave_encShift, Tables.wave_encXor, to8, List.map_cons, List.map_nil]
-    have : (2 : Nat) ^ 8 = 256 := by decide
-    rw [this, h1]
-    simp only [show ¬ (16 = 8) by omega, if_false]
-    congr 2; omega
+/-- reader_total: on EVERY byte string (shorter than 2^32 − 1 bytes, the range of the `uint32_t`
+file size) `Wave_File::read` returns — a parsed file or the failure value −1 (`none`) — and never
+reads outside the file buffer (`oob`) or loops forever (`hang`).  Fuel bound: the chunk loop
+gets `length / 8 + 1` iterations (each consumes at least the 8-byte chunk header), the frame
+loop of a data chunk `chunksize / step + 1`. -/
+theorem C14_reader_total (f : Bytes) (hf : f.length < 4294967295) :
+    ∃ r : Option WaveFile, readWav f = .ok r :=
+  readWav_total f hf
+
+/-- no undefined behaviour in `add_sample(Tag)` either: on a bank satisfying the invariant,
+for any file (or none) and any tag, the result is a sample index or one of the five
+`InputError`s — never `oob`, `hang` or `divZero`. -/
+theorem C14_add_total (b : Bank) (rs : List Win) (inv : Inv b rs) (file : Option Bytes) (tag : List String)
+    (hf : ∀ f, file = some f → f.length < 1073741823) :
+    (∃ r, addSampleTag b file tag = .ok r) ∨ addSampleTag b file tag = .error .incomplete ∨
+    addSampleTag b file tag = .error .notFound ∨ addSampleTag b file tag = .error .offsetTooBig ∨
+    addSampleTag b file tag = .error .noFit ∨ addSampleTag b file tag = .error .tooLong :=
+  addSampleTag_total b rs inv file tag hf
+
+/-- wav_decode: for every recording (8/16 bit, mono/stereo, any rate, any number of frames) and
+every WAV file of it — `fmt `, `data`, optional `smpl` (unity note), any other chunks with
+their pad bytes before, between and after — the reader returns exactly the channel-0 samples,
+which the encoder turns into their 8-bit unsigned conversion, at the file's rate, with the
+file's frame count as sample length and no loop. -/
+theorem C14_wav_decode (w : WavFile) (hw : w.Wf) :
+    ∃ wf, readWav w.bytes = .ok (some wf) ∧ encodeSample wf.data0 = w.pcm.wanted 0 ∧
+      wf.srate = w.pcm.rate ∧ wf.slength = w.pcm.frames.length ∧ wf.lstart = 0 ∧ wf.lend = 0 ∧ wf.ndata = w.pcm.channels := by
+  refine ⟨stEnd w, readWav_canon w hw, ?_⟩
+  have hlen : w.pcm.frames.length < 4294967296 := wav_frames_lt w hw
+  have hfields : (stEnd w).data0 = w.pcm.frames.map (frameRaw w.pcm.bits) ∧ (stEnd w).srate = w.pcm.rate ∧
+      (stEnd w).slength = u32 (w.pcm.frames.length) ∧ (stEnd w).lstart = 0 ∧ (stEnd w).lend = 0 ∧
+      (stEnd w).ndata = w.pcm.channels := by
+    unfold stEnd; split <;> simp [stData, stFmt]
+  obtain ⟨h1, h2, h3, h4, h5, h6⟩ := hfields
+  refine ⟨by rw [h1]; exact encode_frames w.pcm hw.pcm, h2, by rw [h3]; exact u32_small hlen, h4, h5, h6⟩
+
+/-- composition (partial: D11 exclusion as in `C14_inv_histories_partial`): a PCM instrument
+defined on a WAV file of a recording, with any `rate=` / `offset=` overrides, added to any
+reachable bank.  If the addition succeeds, the bank is reachable again, the overrides left
+`start + length = number of frames`, and the instrument's window lies inside the used area
+and contains exactly the 8-bit unsigned conversion of channel 0 of the recording from frame
+`start` to its end; its rate is the one the overrides produced (the file's rate when there
+is no `rate=`). -/
+theorem C14_tag_window_partial (b : Bank) (rs : List Win) (ws : List Bytes) (hr : Reach b rs ws)
+    (w : WavFile) (hw : w.Wf) (hsmall : w.pcm.frames.length < 1073741824)
+    (name : String) (args : List String) (b' : Bank) (idx : Nat)
+    (hD11 : ∀ h : Sample, h.start + h.size = w.pcm.frames.length → findDuplicate b h (w.pcm.wanted 0) = none → h.start = 0)
+    (hok : addSampleTag b (some w.bytes) (name :: args) = .ok (b', idx)) :
+    ∃ (h : Sample) (rs' : List Win) (ws' : List Bytes),
+      applyArgs args ⟨0, 0, w.pcm.frames.length, 0, 0, w.pcm.rate, (stEnd w).transpose, 0⟩ = .ok h ∧
+      Reach b' rs' ws' ∧ h.start + h.size = w.pcm.frames.length ∧
+      ∃ s, b'.samples[idx]? = some s ∧ s.win.inside b'.currentSize ∧ s.win.reads b'.rom = w.pcm.wanted h.start ∧
+        s.size = w.pcm.frames.length - h.start ∧ s.rate = h.rate := by
+  obtain ⟨wf, hread, henc, hrate, hslen, hls, hle, _⟩ := C14_wav_decode w hw
+  have hwf : wf = stEnd w := by
+    have := readWav_canon w hw; rw [hread] at this; cases this; rfl
+  have hwl : (w.pcm.wanted 0).length = w.pcm.frames.length := by simp [Pcm.wanted]
+  unfold addSampleTag at hok
+  simp only [hread, henc, hrate, hslen, hls, hle] at hok
+  rw [hwf] at hok
+  match happ : applyArgs args ⟨0, 0, w.pcm.frames.length, 0, 0, w.pcm.rate, (stEnd w).transpose, 0⟩ with
+  | .error e => rw [happ] at hok; cases hok
+  | .ok h =>
+    rw [happ] at hok
+    simp only at hok
+    have hsum : h.start + h.size = w.pcm.frames.length := by
+      have := applyArgs_sum args _ h (by simp only; omega) happ
+      simpa using this
+    have adm : Adm b (⟨h, w.pcm.wanted 0⟩ : Req).h (⟨h, w.pcm.wanted 0⟩ : Req).data :=
+      ⟨by simp only [hwl]; omega, by simp only [hwl]; omega, hD11 h hsum⟩
+    obtain ⟨_, _, _, _, _, _, inv⟩ := C14_inv_histories_partial b rs ws hr
+    have so := addSample_step b rs h (w.pcm.wanted 0) b' idx inv adm hok
+    obtain ⟨s, hs, hreads, hst, hsz, hrt⟩ := so.entry
+    refine ⟨h, _, _, rfl, Reach.add ⟨h, w.pcm.wanted 0⟩ b' idx hr adm hok, hsum, s, hs, ?_, ?_, by omega, hrt⟩
+    · obtain ⟨r, hrm, _, h2⟩ := so.inv.housed s (List.mem_of_getElem? hs)
+      have := so.inv.regWf r hrm
+      simp only [Win.inside, Sample.win]; omega
+    · rw [hreads]
+      simp only [Pcm.wanted, List.drop_zero]
+      apply List.take_of_length_le
+      simp only [List.length_drop, List.length_map]; omega
+
+/-- what the code guarantees for a fresh placement with ANY start offset (no `Adm.fresh0`; this is
+D11 stated as what it actually is): the header gets `position = p` with `[p, p + size)` a newly
+allocated region holding the FIRST `size` bytes of the data (not the bytes from `start` on); the
+playback window `[p + start, p + start + size)` therefore shows `data[start .. size)` followed by
+the `start` bytes that lie behind the region — bytes this sample does not own. -/
+theorem C14_offset_fresh_stored (b : Bank) (rs : List Win) (h : Sample) (data : Bytes) (b' : Bank) (idx : Nat)
+    (inv : Inv b rs) (hsz : h.size ≤ data.length) (hsmall : data.length < 1073741824)
+    (hnew : findDuplicate b h data = none) (hok : addSample b h data = .ok (b', idx)) :
+    ∃ p, b'.samples = b.samples ++ [{ h with position := p }] ∧ idx = b.samples.length ∧
+      p + h.size ≤ b'.currentSize ∧ b'.currentSize ≤ b'.rom.length ∧
+      Win.reads b'.rom ⟨p, h.size⟩ = data.take h.size ∧
+      (∀ x, p ≤ x → x < p + h.size → cover rs x = 0) ∧
+      (h.start ≤ h.size →
+        Win.reads b'.rom ⟨p + h.start, h.size⟩ =
+          (data.take h.size).drop h.start ++ Win.reads b'.rom ⟨p + h.size, h.start⟩) := by
+  unfold addSample at hok
+  have hb0 : ¬ b.bankSize = 0 := by have := inv.bankPos; omega
+  have hs0 : ¬ h.size > data.length := by omega
+  simp only [hs0, hb0, if_false, hnew] at hok
+  unfold addFresh at hok
+  simp only at hok
+  split at hok
+  · cases hok
+  · rename_i hfit
+    split at hok
+    · cases hok
+    · obtain ⟨_, p2, p3, p4, _, _, _, p8⟩ := placeFresh_spec b rs h.size inv (by omega) hfit
+      simp only [Except.ok.injEq, Prod.mk.injEq] at hok
+      obtain ⟨hb', hidx⟩ := hok
+      subst hb'
+      have hrl := inv.romLen
+      have hw1 : (placeFresh b h.size).2.1 + h.size ≤ b.rom.length := by omega
+      have hself := reads_writeAt_self b.rom data (placeFresh b h.size).2.1 h.size hw1 hsz
+      have hlen := writeAt_length b.rom data (placeFresh b h.size).2.1 h.size hw1 hsz
+      refine ⟨(placeFresh b h.size).2.1, rfl, hidx.symm, p4, by simp only; rw [hlen]; omega, hself, p8, ?_⟩
+      intro hst
+      simp only
+      generalize writeAt b.rom (placeFresh b h.size).2.1 data h.size = rom' at hself hlen ⊢
+      generalize (placeFresh b h.size).2.1 = p at *
+      rw [← hself]
+      simp only [Win.reads]
+      have hL : (rom'.drop p).length ≥ h.size := by simp; omega
+      generalize hLd : rom'.drop p = L at *
+      have e1 : rom'.drop (p + h.start) = L.drop h.start := by rw [← hLd, List.drop_drop]
+      have e2 : rom'.drop (p + h.size) = L.drop h.size := by rw [← hLd, List.drop_drop]
+      rw [e1, e2]
+      conv => lhs; rw [← List.take_append_drop h.size L]
+      rw [List.drop_append_of_le_length (by simp; omega)]
+      rw [List.take_append]
+      have hl2 : ((L.take h.size).drop h.start).length = h.size - h.start := by simp; omega
+      rw [List.take_of_length_le (by omega), hl2]
+      congr 2; omega
 
 def d11Data : Bytes := [0x10, 0x11, 0x12, 0x13, 0x14, 0x15, 0x16, 0x17, 0x18, 0x19, 0x1a, 0x1b, 0x1c, 0x1d, 0x1e, 0x1f]
 def d11Header : Sample := ⟨0, 4, 12, 0, 0, 8000, 0, 0⟩
@@ -252,15 +363,13 @@ theorem C14_offset_window_counterexample :
     (Sample.win { d11Header with position := 0 }).reads d11Bank.rom ≠ (d11Data.drop d11Header.start).take d11Header.size := by
   refine ⟨rfl, by decide, by decide, by unfold Win.inside; decide, by decide⟩
 
-/-- The full statement of C14 over the model, kept for the record.  What is proved of it:
-everything about the bank for admissible additions (`Adm`, i.e. without D11's trigger), and
-the per-sample conversion.  Not proved: (a) the statement without `Adm.fresh0` — it is false
-(`C14_offset_window_counterexample`); (b) that `readWav` on the canonical file of a
-recording yields exactly its channel-0 samples — chunk walking and frame decoding of
-`Wave_File::read` are covered by the correspondence check only. -/
+/-- The full statement of C14 over the model, kept for the record.  Proved of it: the reader
+clause (`C14_wav_decode`, `C14_reader_total`) and everything about the bank for admissible
+additions (`Adm`).  Not proved: the bank clause without `Adm.fresh0` — it is false
+(`C14_offset_window_counterexample`, known finding D11). -/
 def C14_full_statement : Prop :=
-  (∀ (p : Pcm), p.Wf → ∃ wf, readWav p.file = .ok (some wf) ∧ encodeSample wf.data0 = p.wanted 0 ∧
-      wf.srate = p.rate ∧ wf.slength = p.frames.length) ∧
+  (∀ (w : WavFile), w.Wf → ∃ wf, readWav w.bytes = .ok (some wf) ∧ encodeSample wf.data0 = w.pcm.wanted 0 ∧
+      wf.srate = w.pcm.rate ∧ wf.slength = w.pcm.frames.length) ∧
   (∀ b rs ws, Reach b rs ws → ∀ (i : Nat) (s : Sample) (w : Bytes), b.samples[i]? = some s → ws[i]? = some w →
       s.win.inside b.currentSize ∧ s.win.reads b.rom = w)
 
@@ -282,5 +391,27 @@ example : Adm (Bank.new 256 64) ⟨0, 0, 3, 0, 0, 8000, 0, 0⟩ [1, 2, 3] := ⟨
 example : ∃ s : Sample, (s.position < 4294967296 ∧ s.start < 4294967296 ∧ s.size < 4294967296 ∧ s.loopStart < 4294967296 ∧
     s.loopEnd < 4294967296 ∧ s.rate < 4294967296 ∧ s.transpose < 4294967296 ∧ s.flags < 4294967296) ∧ s.size ≠ 0 :=
   ⟨⟨12, 2, 7, 0, 0, 11025, 4294967236, 0⟩, by decide, by decide⟩
+
+/-- a concrete well-formed WAV file: 16-bit stereo, three frames, a LIST chunk of odd size
+before `fmt `, a `smpl` chunk with unity note 60 -/
+def exWav : WavFile :=
+  { pcm := { bits := 16, channels := 2, rate := 17500, frames := [[1, 2], [65535, 3], [32768, 4]] },
+    pre := [⟨0x5453494c, [1, 2, 3]⟩], mid := [], post := [⟨0x74636166, []⟩], note := some 60 }
+
+example : exWav.Wf := by
+  refine ⟨⟨by decide, by decide, by decide, by decide⟩, ?_, ?_, ?_, ?_, ?_⟩
+  · intro o ho
+    have : o = ⟨0x5453494c, [1, 2, 3]⟩ := by simpa [exWav] using ho
+    subst this; simp [Other.Wf, idFmt, idData, idSmpl]
+  · intro o ho; simp [exWav] at ho
+  · intro o ho
+    have : o = ⟨0x74636166, []⟩ := by simpa [exWav] using ho
+    subst this; simp [Other.Wf, idFmt, idData, idSmpl]
+  · intro n hn
+    have : n = 60 := by simpa [exWav] using hn.symm
+    omega
+  · simp [exWav, WavFile.bytes, WavFile.body, WavFile.smpl, others, chunk, Pcm.fmtBody, Pcm.dataBytes, Pcm.sampleBytes, smplBody, le32, le16]
+
+example : exWav.pcm.wanted 1 = [127, 0] := by decide
 
 end Ctrmml.Wave
